@@ -141,6 +141,16 @@ CHECKS = {
         "Duplicate firings are allowed (labelled). Methods take one required marker argument so default handling (C07) does not interfere.",
         "DESIGN.md section 4, C09",
     ),
+    "C11": (
+        "Hypothesis-generated operation histories (model-based / stateful) over a forest of streams; oracle = history invariant: "
+        "snapshot of (ast.dump, item_type, query-metadata view) of every stream ever created must never change",
+        "Model-based testing over histories of derive / MetaData / QMetaData / terminal / execute operations (string, callable and "
+        "shared ast.Lambda supply; typed datasets with callbacks and untyped ones; simulated backend calling the library's "
+        "metadata passes on the received AST; failed derivations included): after every step every stream created so far is "
+        "re-inspected and compared with the snapshot taken when it was created.",
+        "Histories up to 32 steps on up to 3 datasets; executors are stepped synchronously; value() at most twice per history.",
+        "DESIGN.md section 4, C11",
+    ),
 }
 
 NOT_YET = "check not built yet in this round (work in progress; see DESIGN.md section 4 for the planned generator/oracle)"
